@@ -2,6 +2,7 @@ import CkbVerif.Driver.Util
 import CkbVerif.Driver.C15
 import CkbVerif.Model.Compact
 import CkbVerif.Model.Frame
+import CkbVerif.Model.Proto
 
 /-! Line-protocol driver for C16 (protocols: harness/hcore/src/c16.rs, harness/hnode/src/c16.rs).
 
@@ -10,10 +11,26 @@ Stream `wire`:
   gate <sync|relay> <hex>    -> strict <id> | compat <id> | too-many-fields | malformed
 Stream `recv` (the real `Synchronizer::received` / `Relayer::received`, harness/hnode/src/c16_recv.rs):
   recv <sync|relay> <hex>    -> pass <id> | too-many-fields | malformed
+  peer <k>                   -> ok      (the gate is per message: which peer sends it does not matter)
+Stream `proto` (filter / light-client / time handlers, discovery / identify / ping decoders, harness/hnode/src/c16_proto.rs):
+  px filter <hex>            -> pass <id> | malformed
+  px light <hex>             -> pass <id> [toomany] | malformed     (`toomany`: a GetLastStateProof refused as "too many samples")
+  px time <hex>              -> pass | malformed
+  px disc <hex>              -> none | getnodes <version> <count> <port|-> <flags> | nodes <0|1> <flags,..|-> | nodes-addr
+  px ident <hex>             -> none | ok
+  px idv <hex>               -> none | some <flags> | utf8?
+  px ping <hex>              -> none | ping <nonce> | pong <nonce>
 Stream `cb`:
   recon root=<ids|bad> ph=<ok|bad> eh=<ok|bad> sids=<ids> pre=<i:t;…> recv=<ids> uncles=<n> upeer=<idx list> ext=<0|1> props=<n>
        -> verify-err <kind> | block txs=<ids> hdr=<same|reset> | missing txs=<idx> uncles=<idx> | collided | unmatched
      (transaction `t` has short id `t`; the pool is empty; uncles not supplied by the peer are unknown to the chain)
+  btxv sids=<ids> pre=<i:t;…> idx=<indexes> txs=<ids>
+       -> panic | length | shortids | ok        `BlockTransactionsVerifier::verify` on the compact block, as the
+     source reads (`panic` only while `block_short_ids.get(index)` is unwrapped — translated switch)
+  unv uncles=<n> idx=<indexes> recv=<uncle ids>
+       -> length | unmatched | ok total | ok panic     `BlockUnclesVerifier::verify` as the source reads, then — as
+     `BlockTransactionsProcess::execute` does on `ok` — the uncles loop of `reconstruct_block`
+     (`panic` = `received_uncles.get(position).expect(..)`); uncle `j` has hash `500 + j`
 Stream `frame`:
   dec <hex>                  -> err | raw <len> | snappy <len>
   cmp <len>                  -> raw | snappy
@@ -57,6 +74,7 @@ def stepWire (ts : List String) : String :=
       | some .malformed => "malformed"
       | none => "bad-op"
     | none => "bad-op"
+  | ["peer", _] => "ok"  -- stream `recv`: the following messages come from another peer of the case
   | ["gate", which, hx] =>
     match C15.unhex hx with
     | some bs =>
@@ -64,6 +82,63 @@ def stepWire (ts : List String) : String :=
       else if which = "relay" then gateLine (gateRelay bs)
       else "bad-op"
     | none => "bad-op"
+  | _ => "bad-op"
+
+/-- the network identifier the harness asks `Identify::verify` with -/
+def netName : List UInt8 := "ckb_verif".toUTF8.toList
+
+def stepProto (ts : List String) : String :=
+  match ts with
+  | ["px", which, hx] =>
+    match C15.unhex hx with
+    | none => "bad-op"
+    | some bs =>
+      if which = "filter" then
+        match CkbVerif.Proto.gateFilter bs with
+        | .pass id => s!"pass {id}"
+        | .malformed => "malformed"
+      else if which = "light" then
+        match CkbVerif.Proto.gateLight bs with
+        | .pass id =>
+          if id = CkbVerif.Gen.Schemas.U.LightClientMessage.GetLastStateProof then
+            match CkbVerif.Proto.lightTooMany bs with
+            | some true => s!"pass {id} toomany"
+            | some false => s!"pass {id}"
+            | none => s!"pass {id} overflow"
+          else s!"pass {id}"
+        | .malformed => "malformed"
+      else if which = "time" then
+        if CkbVerif.Proto.gateTime bs then "pass" else "malformed"
+      else if which = "disc" then
+        -- a well-formed Nodes message that carries an address: Multiaddr parsing is not modelled
+        let hasAddr :=
+          verify true CkbVerif.Gen.Schemas.S.DiscoveryMessage bs &&
+          (let payload := CkbVerif.Proto.fld bs 0
+           num payload == CkbVerif.Gen.Schemas.U.DiscoveryPayload.Nodes &&
+           (CkbVerif.Proto.dynItems (CkbVerif.Proto.fld (payload.drop 4) 1)).any
+             (fun node => !(CkbVerif.Proto.dynItems (CkbVerif.Proto.fld node 0)).isEmpty))
+        if hasAddr then "nodes-addr" else
+        match CkbVerif.Proto.discDecode bs with
+        | .none => "none"
+        | .getNodes v c p f =>
+          let ps := match p with | some x => toString x | none => "-"
+          s!"getnodes {v} {c} {ps} {f}"
+        | .nodes a items =>
+          let fs := if items.isEmpty then "-" else ",".intercalate (items.map (fun it => toString it.2))
+          s!"nodes {if a then 1 else 0} {fs}"
+      else if which = "ident" then
+        if verify true CkbVerif.Gen.Schemas.S.IdentifyMessage bs then "ok" else "none"
+      else if which = "idv" then
+        match CkbVerif.Proto.identifyVerify netName bs with
+        | .none => "none"
+        | .some f => s!"some {f}"
+        | .undecided => "utf8?"
+      else if which = "ping" then
+        match CkbVerif.Proto.pingDecode bs with
+        | .none => "none"
+        | .ping n => s!"ping {n}"
+        | .pong n => s!"pong {n}"
+      else "bad-op"
   | _ => "bad-op"
 
 /-- `key=value` → value -/
@@ -140,6 +215,40 @@ def stepCb (ts : List String) : String :=
         | .unmatched => "unmatched"
         | .invalidUncle => "invalid-uncle"
         | .invalidHeader => "invalid-header"
+  | "btxv" :: rest =>
+    let r : Option (CB × List Nat × List Tx) := do
+      let sids ← (field rest "sids").bind parseNatList?
+      let pre ← (field rest "pre").bind parsePairs
+      let idx ← (field rest "idx").bind parseNatList?
+      let txs ← (field rest "txs").bind parseNatList?
+      let mk (i : Nat) : Tx := { id := i, sid := i }
+      let cb : CB :=
+        { header := default, shortIds := sids, prefilled := pre.map (fun (p : Nat × Nat) => (p.1, mk p.2)), uncles := [],
+          proposals := [], extension := none }
+      pure (cb, idx, txs.map mk)
+    match r with
+    | none => "bad-op"
+    | some (cb, idx, txs) =>
+      match btxVerify cb idx txs with
+      | .panic => "panic"
+      | .lengthUnmatched => "length"
+      | .shortIdsUnmatched => "shortids"
+      | .ok => "ok"
+  | "unv" :: rest =>
+    let r : Option (List Nat × List Nat × List Nat) := do
+      let nu ← (field rest "uncles").bind parseNat?
+      let idx ← (field rest "idx").bind parseNatList?
+      let recv ← (field rest "recv").bind parseNatList?
+      pure ((List.range nu).map (· + 500), idx, recv.map (· + 500))
+    match r with
+    | none => "bad-op"
+    | some (uncles, idx, recv) =>
+      if unclesVerify uncles idx recv then
+        match unclesTake idx recv uncles 0 0 with
+        | some _ => "ok total"
+        | none => "ok panic"
+      else if CkbVerif.Gen.RelayVerifiers.UNCLES_LENGTH_MISMATCH_RETURNS && (expectedUncles uncles idx).length != recv.length then "length"
+      else "unmatched"
   | _ => "bad-op"
 
 def stepFrame (ts : List String) : String :=
@@ -278,6 +387,7 @@ def main (args : List String) : IO UInt32 :=
   | ["codec"] => runLines ({} : CodecSt) stepCodec
   | ["cb"] => runLines () (fun _ ts => ((), stepCb ts))
   | ["frame"] => runLines () (fun _ ts => ((), stepFrame ts))
+  | ["proto"] => runLines () (fun _ ts => ((), stepProto ts))
   | _ => runLines () (fun _ ts => ((), stepWire ts))
 
 end CkbVerif.Driver.C16
